@@ -23,7 +23,8 @@ character / byte replacement), and a few hand-written boundary shapes (empty fil
 
 Failure key:  <stage>:<format>:<ExceptionType>:<function>   where <function> is the innermost ttconv frame outside the model guards
 (module.qualname), followed by `/<guard>` when the exception was raised by a guard of ttconv.model / ttconv.style_properties, e.g.
-`read:vtt:TypeError:vtt.reader._TextCueParser._handle_string/model.Div.push_child`.  One defect = one <ExceptionType>:<function> suffix;
+`read:vtt:TypeError:vtt.reader._TextCueParser._handle_string/model.Div.push_child`; the two writer guards SrtParagraph.to_string / VttCue.to_string
+raise for several distinct reasons with constant messages, there the reason is appended (`...VttCue.to_string[end-not-set]`).  One defect = one <ExceptionType>:<function> suffix;
 the same defect may be reached at several stages and formats (glob `*:ValueError:isd.ISD._process_element/model.Ruby.push_children`).
 Other keys: `<stage>:<format>:timeout`, `read:<format>:none-without-fatal-log`, `read:<format>:bad-return-type`.
 
@@ -138,6 +139,8 @@ def limited(seconds, fn, *a):
 # where was it raised
 
 _GUARD_MODULES = ("model", "style_properties")
+_MESSAGE_KEYS = {("srt.paragraph", "SrtParagraph.to_string"), ("vtt.cue", "VttCue.to_string")}
+_MESSAGE_SLUGS = (("end time code must be greater", "end-not-after-begin"), ("end time code must be set", "end-not-set"), ("begin time code must be set", "begin-not-set"))
 
 
 def where(exc):
@@ -162,6 +165,11 @@ def where(exc):
     top = max(counts.items(), key=lambda kv: (kv[1], kv[0]))[0]
     return f"recursion-in:{top[0]}.{top[1]}"
   inner = frames[-1]
+  if inner in _MESSAGE_KEYS:
+    # one guard, several distinct reasons (constant messages): the reason is part of the key
+    msg = str(exc)
+    slug = next((s for needle, s in _MESSAGE_SLUGS if needle in msg), "other")
+    return f"{inner[0]}.{inner[1]}[{slug}]"
   if inner[0] in _GUARD_MODULES:
     callers = [f for f in frames if f[0] not in _GUARD_MODULES]
     if callers:
@@ -978,6 +986,7 @@ DIRECTED = {
     _T + '<body><div><p>a<br tts:padding="1c" tts:textOutline="5%" tts:rubyReserve="both"/>b</p></div></body></tt>',
     _T + '<body><div><p tts:textShadow="none" tts:textEmphasis="none" tts:rubyReserve="none">x</p></div></body></tt>',
     _T + '<head><layout><region xml:id="r1" tts:position="center"/><region xml:id="r2" tts:position="top left" tts:extent="100px 50px"/></layout></head><body><div><p region="r1">x</p></div></body></tt>',
+    _T + '<head><layout><region xml:id="r1"/><region xml:id="r2"/></layout></head><body><div><p region="r1">x</p><p region="r2">y</p></div></body></tt>',
     _T.replace(">", ' ttp:tickRate="0">') + '<body><div><p begin="10t">x</p></div></body></tt>',
     _T.replace(">", ' ttp:frameRate="0">') + '<body><div><p begin="10f">x</p></div></body></tt>',
     _T.replace(">", ' ttp:frameRateMultiplier="1000 0">') + '<body><div><p begin="10f">x</p></div></body></tt>',
